@@ -450,6 +450,8 @@ struct Task {
 }
 
 fn main() {
+    // a stack overflow / abort in the code under test must become a verdict, not a dead check
+    vcore::supervise("C12");
     let ctx = Ctx::from_args("C12", "model_checking");
     let thorough = !ctx.quick();
     // one work unit is a few hundred real exchanges; leave room for a heavily loaded machine
